@@ -139,7 +139,9 @@ class TrackerSlice:
             return [Outcome(T, {"g.ensured": S_["g.ensured"] + 1,
                                 "g.bad_return": z3.Or(S_["g.bad_return"], z3.And(z3.Not(ok), z3.Not(S_["in.spawn_fails"])))},
                             None, None, "obs")]
-        self.obs.define("ensured", ensured, fused=True)
+        # not fused: the replay evaluates an observation when the real thread gets there, which must be a scheduled
+        # step of its own (a fused one could be overtaken by the next step of another thread)
+        self.obs.define("ensured", ensured)
         self.sys.local_types["in.spawn_fails"] = "bool"
 
     to_python = {"OptInt": lambda w, f: int(f["i"])}
